@@ -163,10 +163,14 @@ func init() {
 			fn := c.Fn("Association.gatherOutboundPriorityPackets")
 			fA, fC := c.field("Association", "willSendAbort"), c.field("Association", "willSendShutdownComplete")
 			fK, fS := c.field("Association", "willSendShutdownAck"), c.field("Association", "willSendShutdown")
-			gAbort := c.Fn("Association.gatherAbortPacket")
+			// the ABORT emission: the helper gatherAbortPacket, or (if it was inlined) the clearing of willSendAbort
+			gAbort := c.P.Fn("Association.gatherAbortPacket")
 			gShut := c.Fn("Association.gatherOutboundShutdownPackets")
 			gSack := c.Fn("Association.gatherOutboundSackPackets")
-			opaque := map[*ssa.Function]bool{gAbort: true, gShut: true, gSack: true}
+			opaque := map[*ssa.Function]bool{gShut: true, gSack: true, c.Fn("Association.marshalPacket"): true, c.Fn("Association.createPacket"): true}
+			if gAbort != nil {
+				opaque[gAbort] = true
+			}
 			b := func(x bool) constant.Value { return constant.MakeBool(x) }
 			for si, sn := range e.names {
 				var sv int64
@@ -205,6 +209,9 @@ func init() {
 					why := ""
 					for _, o := range outs {
 						nA, nS, nK := len(o.Called("Association.gatherAbortPacket")), len(o.Called("Association.gatherOutboundShutdownPackets")), len(o.Called("Association.gatherOutboundSackPackets"))
+						if gAbort == nil && o.Stored[fA] && o.Stores[fA] != nil && !constant.BoolVal(o.Stores[fA]) {
+							nA = 1
+						}
 						term := o.Ret[len(o.Ret)-1]
 						isTerm := term != nil && term.Kind() == constant.Bool && constant.BoolVal(term)
 						notTerm := term != nil && term.Kind() == constant.Bool && !constant.BoolVal(term)
